@@ -37,6 +37,9 @@ def run(ctx):
         pass
     from rules import c11_ringhash
     c11_ringhash.run(ctx, crate)
+    ns = (1, 2, 3, 4) if ctx.tier == "quick" else (1, 2, 3, 4, 5, 6, 7)
+    for cfg in ("rel", "dbg"):
+        c11_ringhash.table(ctx, ctx.crate(cfg), cfg, ns)
     ctx.not_decided("ring hash lands in the containing cell; centre round trip; polar-cap index correction at lon = k*pi/2 (float tie-breaks)")
     from rules import controls
     controls.guard_controls(ctx)
